@@ -114,7 +114,7 @@ PROPS = {
                   ("ST", 2, None), ("SH", 1, has("SddPtr> for T>::condition")), ("SA", 10, None), ("VX", 11, None),
                   ("VO", 1, vo_sel("::sdd::", only_label_order=True)),
                   ("GL", 12, has(":GL1:", ":GL2:", "SddPtr> for T>::ite:GL4", "SddPtr> for T>::and:GL4", "AllIteTable:GL8", ":GL10:", "SddPtr> for T>::ite:GL11", "SddPtr> for T>::and:GL11")),
-                  ("BT", 9, None), ("MK", 0, has("::sdd::")), ("WC", 4, has("sdd-")), ("WC", 6, has("sdd-node")), ("CM", 9, None), ("RN", 3, has("exhaustive-primes"))],
+                  ("BT", 9, None), ("MK", 0, has("::sdd::")), ("WC", 4, has("sdd-")), ("WC", 6, has("sdd-node")), ("CM", 8, None), ("RN", 3, has("exhaustive-primes"))],
         "explanation": "Complement coherence of every place the SDD code touches subs/children of a possibly complemented node "
                        "(and_sub_desc, and_prime_desc, and_cartesian, condition, SddPtr::{low,high,neg,is_neg}): operands of "
                        "and/ite/..., elements of result nodes and traversal recursion denote the same thing for a regular and "
